@@ -58,7 +58,7 @@ def alias_of(r, depth=0):
         base = alias_of(at.args[0], depth + 1)
         ix = at.args[1]
         comps = ix if isinstance(ix, tuple) and not (ix and ix[0] == "slice") else (ix,)
-        advanced = any(isinstance(c, Rat) and c.const_value() is None and not _is_scalar_index(c) for c in comps)
+        advanced = any(isinstance(c, Rat) and c.const_value() is None and not _is_scalar_index(c) and not _may_be_slice(c) for c in comps)
         inner = at.args[0].as_atom() if isinstance(at.args[0], Rat) else None
         if inner is not None and inner.func == "pylist" and inner.args and isinstance(inner.args[0], tuple):
             # element of a python list of arrays: the element itself (worst case over the elements)
@@ -134,6 +134,43 @@ def _summary_alias(method, args, depth):
         if al != "fresh":
             worst = al
     return worst
+
+
+_SLICE_SUMMARIES = {}
+
+
+def _may_be_slice(c, depth=0):
+    """Can this index component be a slice object?  Subscripting with a slice gives a VIEW of the array, subscripting with an index
+    array gives a copy.  Helper methods of Data that hand out the index (``self._get_time_indices(i)``) are summarised by their
+    return values."""
+    if isinstance(c, tuple):
+        return bool(c) and c[0] == "slice"
+    if not isinstance(c, Rat) or depth > 6:
+        return False
+    at = c.as_atom()
+    if at is None:
+        return False
+    f = at.func
+    if f in ("call:slice", "slice", "call:builtins.slice", "call:numpy.s_", "call:numpy.index_exp"):
+        return True
+    if f == "ifexp":
+        return _may_be_slice(at.args[1], depth + 1) or _may_be_slice(at.args[2], depth + 1)
+    if f.startswith("self.") and f.count(".") == 1 and _PROG is not None:
+        method = f[5:]
+        if method not in _SLICE_SUMMARIES:
+            _SLICE_SUMMARIES[method] = False
+            hit = _PROG.lookup_method(_PROG.cls("verif.data.Data"), method)
+            if hit is not None:
+                try:
+                    ev = symeval.Evaluator(hit[0].module)
+                    ev.loop_mode = "unroll2"
+                    ev.merge_ifs = True
+                    outs = ev.run(hit[1])
+                    _SLICE_SUMMARIES[method] = any(_may_be_slice(o.value, depth + 1) for o in outs if o.kind == "return")
+                except (symeval.Undecided, AnalysisError):
+                    _SLICE_SUMMARIES[method] = False
+        return _SLICE_SUMMARIES[method]
+    return False
 
 
 def _is_scalar_index(c):
@@ -503,6 +540,7 @@ def run(ctx):
     global _PROG
     _PROG = ctx.prog
     _SUMMARIES.clear()
+    _SLICE_SUMMARIES.clear()
     ctx.rule("C18.1", "no request-dependent in-place write into shared storage; no in-place mutation of array parameters")
     ctx.rule("C18.2", "callers never write into arrays returned by get_scores/get_p/get_q")
     ctx.rule("C18.3", "memo key complete; classes inside keys define __eq__/__hash__ over their parameters")
